@@ -220,3 +220,208 @@ mod verif_kani {
         core::mem::forget(r);
     }
 }
+
+// ---- second module: the evaluator applied to small trees (leaves fully symbolic) -----------------
+#[cfg(kani)]
+mod verif_tree_kani {
+    use super::*;
+
+    fn num(x: f64) -> Expression {
+        Expression::Number(NumberExpression::Decimal(DecimalNumber::new(x)))
+    }
+    fn same(v: f64, expect: f64) -> bool {
+        v == expect || (v.is_nan() && expect.is_nan())
+    }
+    fn check_arith(op: BinaryOperator) {
+        let a: f64 = kani::any();
+        let b: f64 = kani::any();
+        let e = BinaryExpression::new(op, num(a), num(b));
+        let r = Evaluator::default().evaluate_binary(&e);
+        let expect = match op {
+            BinaryOperator::Plus => a + b,
+            BinaryOperator::Minus => a - b,
+            BinaryOperator::Asterisk => a * b,
+            _ => a / b,
+        };
+        match r {
+            LuaValue::Number(v) => assert!(same(v, expect), "O-val: arithmetic on two number constants is IEEE double arithmetic"),
+            LuaValue::Unknown => {}
+            _ => assert!(false, "arithmetic gives a number or Unknown"),
+        }
+        kani::cover!(matches!(r, LuaValue::Number(_)));
+        core::mem::forget(e);
+    }
+
+    //@harness props=C08,C12 kind=proof fns=Evaluator::evaluate_binary,Evaluator::evaluate_math,Evaluator::evaluate,LuaValue::number_coercion
+    //@ desc="for ALL pairs of doubles a, b: a definite value of `a + b` is the IEEE sum (NaN allowed)" budget=300
+    #[kani::proof]
+    #[kani::unwind(3)]
+    fn vk_tree_eval_plus() {
+        check_arith(BinaryOperator::Plus);
+    }
+
+    //@harness props=C08,C12 kind=proof fns=Evaluator::evaluate_binary,Evaluator::evaluate_math
+    //@ desc="for ALL pairs of doubles a, b: a definite value of `a - b` is the IEEE difference" budget=300
+    #[kani::proof]
+    #[kani::unwind(3)]
+    fn vk_tree_eval_minus() {
+        check_arith(BinaryOperator::Minus);
+    }
+
+    fn check_relational(op: BinaryOperator) {
+        let a: f64 = kani::any();
+        let b: f64 = kani::any();
+        let expect = match op {
+            BinaryOperator::LowerThan => a < b,
+            BinaryOperator::LowerOrEqualThan => a <= b,
+            BinaryOperator::GreaterThan => a > b,
+            _ => a >= b,
+        };
+        let e = BinaryExpression::new(op, num(a), num(b));
+        let r = Evaluator::default().evaluate_binary(&e);
+        match r {
+            LuaValue::True => assert!(expect, "O-val: relational folding says true only when the comparison holds"),
+            LuaValue::False => assert!(!expect, "O-val: relational folding says false only when the comparison fails"),
+            LuaValue::Unknown => {}
+            _ => assert!(false, "a comparison gives a boolean or Unknown"),
+        }
+        kani::cover!(matches!(r, LuaValue::True));
+        kani::cover!(matches!(r, LuaValue::False));
+        core::mem::forget(e);
+    }
+
+    //@harness props=C08,C12 kind=proof fns=Evaluator::evaluate_binary,Evaluator::evaluate_relational
+    //@ desc="for ALL pairs of doubles a, b: a definite answer of `a < b` is the IEEE comparison (false whenever NaN is involved)" budget=300
+    #[kani::proof]
+    #[kani::unwind(3)]
+    fn vk_tree_eval_lt() {
+        check_relational(BinaryOperator::LowerThan);
+    }
+
+    //@harness props=C08,C12 kind=proof fns=Evaluator::evaluate_binary,Evaluator::evaluate_relational
+    //@ desc="for ALL pairs of doubles a, b: a definite answer of `a <= b` is the IEEE comparison (false whenever NaN is involved)" budget=300
+    #[kani::proof]
+    #[kani::unwind(3)]
+    fn vk_tree_eval_le() {
+        check_relational(BinaryOperator::LowerOrEqualThan);
+    }
+
+    //@harness props=C08,C12 kind=proof fns=Evaluator::evaluate_binary,Evaluator::evaluate_relational
+    //@ desc="for ALL pairs of doubles a, b: a definite answer of `a > b` is the IEEE comparison (false whenever NaN is involved)" budget=300
+    #[kani::proof]
+    #[kani::unwind(3)]
+    fn vk_tree_eval_gt() {
+        check_relational(BinaryOperator::GreaterThan);
+    }
+
+    //@harness props=C08,C12 kind=proof fns=Evaluator::evaluate_binary,Evaluator::evaluate_relational
+    //@ desc="for ALL pairs of doubles a, b: a definite answer of `a >= b` is the IEEE comparison (false whenever NaN is involved)" budget=300
+    #[kani::proof]
+    #[kani::unwind(3)]
+    fn vk_tree_eval_ge() {
+        check_relational(BinaryOperator::GreaterOrEqualThan);
+    }
+
+    /// leaves: 0 true, 1 false, 2 nil, 3 a call (side effect, unknown value)
+    fn leaf(k: u8) -> Expression {
+        match k {
+            0 => Expression::True(None),
+            1 => Expression::False(None),
+            2 => Expression::Nil(None),
+            _ => Expression::Call(Box::new(FunctionCall::from_name("f"))),
+        }
+    }
+    fn truthy(k: u8) -> Option<bool> {
+        match k {
+            0 => Some(true),
+            1 | 2 => Some(false),
+            _ => None,
+        }
+    }
+    fn is_leaf_value(v: &LuaValue, k: u8) -> bool {
+        match k {
+            0 => matches!(v, LuaValue::True),
+            1 => matches!(v, LuaValue::False),
+            2 => matches!(v, LuaValue::Nil),
+            _ => matches!(v, LuaValue::Unknown),
+        }
+    }
+
+    fn check_and_or(is_and: bool, l: u8, r: u8) {
+        let e = BinaryExpression::new(if is_and { BinaryOperator::And } else { BinaryOperator::Or }, leaf(l), leaf(r));
+        let v = Evaluator::default().evaluate_binary(&e);
+        if !matches!(v, LuaValue::Unknown) {
+            let t = truthy(l);
+            assert!(t.is_some(), "a definite answer needs a definite left operand");
+            let pick_left = if is_and { t == Some(false) } else { t == Some(true) };
+            assert!(is_leaf_value(&v, if pick_left { l } else { r }), "O-val: and/or select the operand Lua selects");
+        }
+        core::mem::forget(e);
+    }
+
+    //@harness props=C08,C12 kind=bounded fns=Evaluator::evaluate_binary,LuaValue::map_if_truthy,LuaValue::map_if_truthy_else bound="ENUMERATED: `and` with left, right operands over the leaves {true, false, nil, call} (16 expressions)" budget=400
+    //@ desc="`l and r` on constant leaves: a definite answer is the operand Lua selects"
+    #[kani::proof]
+    #[kani::unwind(6)]
+    fn vk_tree_eval_and() {
+        let mut l = 0u8;
+        while l < 4 {
+            let mut r = 0u8;
+            while r < 4 {
+                check_and_or(true, l, r);
+                r += 1;
+            }
+            l += 1;
+        }
+        kani::cover!(true);
+    }
+
+    //@harness props=C08,C12 kind=bounded fns=Evaluator::evaluate_binary,LuaValue::map_if_truthy,LuaValue::map_if_truthy_else bound="ENUMERATED: `or` with left, right operands over the leaves {true, false, nil, call} (16 expressions)" budget=400
+    //@ desc="`l or r` on constant leaves: a definite answer is the operand Lua selects"
+    #[kani::proof]
+    #[kani::unwind(6)]
+    fn vk_tree_eval_or() {
+        let mut l = 0u8;
+        while l < 4 {
+            let mut r = 0u8;
+            while r < 4 {
+                check_and_or(false, l, r);
+                r += 1;
+            }
+            l += 1;
+        }
+        kani::cover!(true);
+    }
+
+    //@harness props=C08,C12 kind=bounded fns=Evaluator::evaluate_unary bound="`not` over the leaves {true, false, nil, call} (enumerated); unary minus over ALL doubles" budget=300
+    //@ desc="`not x` on a constant leaf is the negated truthiness (Unknown for a call); `-n` on a number constant is the IEEE negation"
+    #[kani::proof]
+    #[kani::unwind(6)]
+    fn vk_tree_eval_unary() {
+        let mut k = 0u8;
+        while k < 4 {
+            let e = UnaryExpression::new(UnaryOperator::Not, leaf(k));
+            let v = Evaluator::default().evaluate_unary(&e);
+            match truthy(k) {
+                Some(t) => assert!(if t { matches!(v, LuaValue::False) } else { matches!(v, LuaValue::True) }, "O-val: not x"),
+                None => assert!(matches!(v, LuaValue::Unknown), "not <call> is unknown"),
+            }
+            core::mem::forget(e);
+            k += 1;
+        }
+        let a: f64 = kani::any();
+        let m = UnaryExpression::new(UnaryOperator::Minus, num(a));
+        match Evaluator::default().evaluate_unary(&m) {
+            LuaValue::Number(x) => assert!(x.to_bits() == (-a).to_bits() || (x.is_nan() && a.is_nan()), "O-val: -n"),
+            LuaValue::Unknown => {}
+            _ => assert!(false, "-n is a number or Unknown"),
+        }
+        kani::cover!(true);
+        core::mem::forget(m);
+    }
+
+    // MEASURED, out of reach: has_side_effects / if_expression_has_side_effects -- a harness over
+    // 8 ENUMERATED if-expressions (conditions and results over {true, false, call}) does not finish
+    // in 400 s (mutual recursion has_side_effects <-> evaluate over the large Expression enum).
+    // Not covered; stated in the evidence.
+}
